@@ -252,4 +252,4 @@ func replay(raw json.RawMessage) error {
 	return run1(nil, &d)
 }
 
-func main() { core.Main("C04", gen, replay) }
+func main() { core.MainWithFacts("C04", gen, replay, facts) }
